@@ -17,4 +17,5 @@ void     acct_fail_at(uint64_t k);
 uint64_t acct_fail_count(void); // allocations counted since acct_fail_at
 int      acct_fail_fired(void);
 void     acct_dump_live(int max); // to stderr
+void     acct_dump_since(uint64_t alloc_seq); // dump only blocks allocated at or after this allocation number
 #endif
